@@ -1213,6 +1213,68 @@ var stdTable = map[string]stdSummary{
 	"bytes.Equal":    {},
 	"bytes.Contains": {},
 	"os.Exit":        {exit: true},
+	// writers into a caller-supplied io.Writer (argument 0): a local builder/buffer is fresh memory, os.Stdout is a global
+	"fmt.Fprintf":  {mods: []int{0}},
+	"fmt.Fprint":   {mods: []int{0}},
+	"fmt.Fprintln": {mods: []int{0}},
+	"fmt.Appendf":  {retFresh: true, retAlias: []int{0}},
+	"fmt.Append":   {retFresh: true, retAlias: []int{0}},
+	"fmt.Appendln": {retFresh: true, retAlias: []int{0}},
+	"io.WriteString": {mods: []int{0}},
+	"(*bytes.Buffer).Grow":     {mods: []int{0}},
+	"(*bytes.Buffer).Reset":    {mods: []int{0}},
+	"(*bytes.Buffer).Truncate": {mods: []int{0}},
+	"(*strings.Builder).Reset": {mods: []int{0}},
+	"(*strings.Builder).Cap":   {},
+	"(*bytes.Buffer).Cap":      {},
+	"slices.Compact":       {mods: []int{0}, retAlias: []int{0}},
+	"slices.CompactFunc":   {mods: []int{0}, retAlias: []int{0}},
+	"slices.DeleteFunc":    {mods: []int{0}, retAlias: []int{0}},
+	"slices.Replace":       {mods: []int{0}, retFresh: true, retAlias: []int{0}, elemsTo: [][2]int{{3, -1}, {3, 0}}},
+	"slices.Compare":       {},
+	"slices.CompareFunc":   {},
+	"slices.EqualFunc":     {},
+	"slices.MaxFunc":       {},
+	"slices.MinFunc":       {},
+	"sort.Sort":            {mods: []int{0}},
+	"sort.Stable":          {mods: []int{0}},
+	"sort.Float64s":        {mods: []int{0}},
+	"sort.Search":          {},
+	"sort.SearchInts":      {},
+	"sort.SearchStrings":   {},
+	"sort.IsSorted":        {},
+	"sort.SliceIsSorted":   {},
+	"errors.Is":            {},
+	"errors.Unwrap":        {},
+	"errors.As":            {mods: []int{1}},
+	"bytes.IndexByte":      {},
+	"bytes.LastIndex":      {},
+	"bytes.LastIndexByte":  {},
+	"bytes.IndexAny":       {},
+	"bytes.HasPrefix":      {},
+	"bytes.HasSuffix":      {},
+	"bytes.Compare":        {},
+	"bytes.Count":          {},
+	"bytes.TrimSpace":      {retAlias: []int{0}},
+	"bytes.TrimPrefix":     {retAlias: []int{0}},
+	"bytes.TrimSuffix":     {retAlias: []int{0}},
+	"bytes.Trim":           {retAlias: []int{0}},
+	"maps.Clone":           {retFresh: true, elemsTo: [][2]int{{0, -1}}},
+	"maps.Copy":            {mods: []int{0}, elemsTo: [][2]int{{1, 0}}},
+	"maps.Equal":           {},
+	"maps.EqualFunc":       {},
+	"maps.DeleteFunc":      {mods: []int{0}},
+	"encoding/json.NewDecoder":                {retFresh: true, retAlias: []int{0}},
+	"(*encoding/json.Decoder).Decode":         {mods: []int{0, 1}, modsDeep: true},
+	"(*encoding/json.Decoder).UseNumber":      {mods: []int{0}},
+	"(*encoding/json.Decoder).More":           {},
+	"(*encoding/json.Decoder).Token":          {mods: []int{0}, retFresh: true},
+	"(*encoding/json.Decoder).InputOffset":    {},
+	"encoding/json.NewEncoder":                {retFresh: true, retAlias: []int{0}},
+	"(*encoding/json.Encoder).Encode":         {mods: []int{0}},
+	"(*encoding/json.Encoder).SetEscapeHTML":  {mods: []int{0}},
+	"encoding/json.Compact":                   {mods: []int{0}},
+	"encoding/json.Indent":                    {mods: []int{0}},
 	"runtime.Goexit": {exit: true},
 }
 
